@@ -19,11 +19,23 @@ ViewOK(got, v) ==          \* got: [gen, metagen, md5, size, attrs, meta : Seq([
   /\ got.attrs = v.attrs
   /\ Len(got.meta) = Cardinality({got.meta[i].k : i \in 1..Len(got.meta)}) /\ MetaFn(got.meta) = v.meta
 
+\* the Content-ID of a batch sub-response: "response-" put in front of the request's (inside the angle bracket if any)
+RespPrefix == <<114, 101, 115, 112, 111, 110, 115, 101, 45>>
+RespCid(c) == IF c = <<>> THEN <<>> ELSE IF Head(c) = 60 THEN <<60>> \o RespPrefix \o Tail(c) ELSE RespPrefix \o c
+
+RECURSIVE RespOK(_, _)
 RespOK(e, exp) ==
   LET got == e.resp IN
   /\ got.code \in exp.codes
   /\ exp.ok =>
-       CASE e.ev \in {"Upload", "Compose"} \/ (e.ev = "ResumablePut" /\ got.code = 200) ->
+       CASE e.ev = "Batch" ->
+              \* one sub-response per part, in the order of the parts, each what that request answers on the state the
+              \* parts before it produced, and labelled with its part's Content-ID
+              /\ Len(got.parts) = Len(e.parts) /\ Len(exp.parts) = Len(e.parts)
+              /\ \A i \in 1..Len(e.parts) :
+                    /\ RespOK([resp |-> got.parts[i].resp] @@ e.parts[i], exp.parts[i])
+                    /\ got.parts[i].cid = RespCid(e.parts[i].cid)
+         [] e.ev \in {"Upload", "Compose"} \/ (e.ev = "ResumablePut" /\ got.code = 200) ->
               \* generation and metageneration agree between the reply body and the headers (C10)
               /\ got.view.gen = exp.gen /\ got.hgen = exp.gen /\ got.view.metagen = 1 /\ got.hmetagen = 1
               /\ got.view.md5 = exp.md5 /\ got.view.size = exp.size
